@@ -101,7 +101,9 @@ def ir_path(config, omp=False, sroa=False):
     lk = _locked(os.path.join(d, base))
     try:
         if not (os.path.exists(raw) and os.path.getsize(raw) > 0):
-            um = os.path.join(d, 'umbrella.cpp')
+            # one umbrella file per configuration: a shared file would be truncated by one builder while another
+            # configuration's compiler is reading it (checks run in parallel)
+            um = os.path.join(d, base + '_umbrella.cpp')
             with open(um, 'w') as f:
                 f.write(UMBRELLA)
             cmd = ['clang++'] + base_flags(config) + ['-O0', '-Xclang', '-disable-O0-optnone', '-g', '-fno-discard-value-names',
@@ -127,7 +129,9 @@ def ast_json(config, filt, omp=True):
     lk = _locked(out)
     try:
         if not (os.path.exists(out) and os.path.getsize(out) > 0):
-            um = os.path.join(d, 'umbrella.cpp')
+            # one umbrella file per configuration: a shared file would be truncated by one builder while another
+            # configuration's compiler is reading it (checks run in parallel)
+            um = out + '_umbrella.cpp'
             with open(um, 'w') as f:
                 f.write(UMBRELLA)
             cmd = ['clang++'] + base_flags(config) + (['-fopenmp'] if omp else []) + ['-fsyntax-only', '-Xclang', '-ast-dump=json',
